@@ -15,6 +15,7 @@ EXPLANATION = ("Necessary shape conditions of ordered replay and of the old/new 
                "the fixed subscriber reports empty; (R09.6) create_streams_for_old_and_new_events stores each subscriber under the id of the stream it returns for it.")
 EXPLANATION += ' R09.3 also requires the recede CAS to be retried until it succeeds (its loop is left only on the Ok edge) and the empty answer to invoke report_empty_fn exactly once (the old-events stream ends through it, R09.5).'
 EXPLANATION += " R09.5 accepts the self-cancel inside the report-empty callback or on the None edge of the fixed subscriber's answer; R09.6 accepts a tuple or a named struct as the split's answer (which component goes where is enforced by the variants' payload types); (R09.7) C04's wake-site rules on the log channel: every send wakes every live listener after the publication, and the listener set it walks is read after the publication."
+EXPLANATION += ' R09.6 also requires both subscriber stores on every path (a re-used / rewound subscriber keeps the previous split point).'
 ASSUMPTIONS = ["ordering under weak memory (the log's CAS / loads are Relaxed) is not decided; the property quantifies over interleavings",
                "the old-only subscription is todo!() upstream and excluded by the property"]
 
